@@ -1,10 +1,11 @@
 import CTM.Drive.Util
 import CTM.Model.Holm
 import CTM.Model.RefMarkers
+import CTM.Model.RefMarkersCompose
 open Lean
 
 namespace CTM.Drive.RefMarkers
-open CTM CTM.Drive CTM.Holm CTM.RefMarkers
+open CTM CTM.Drive CTM.Holm CTM.RefMarkers CTM.Sparse CTM.Procs
 
 def parseTh (j : Json) : R Thresholds := do
   return { pTh := ← asRat (← field j "pTh"), q1Th := ← asRat (← field j "q1Th"),
@@ -123,6 +124,19 @@ def handle : Handler := fun op inp =>
   | "refmarkers.pairs" => some do
       let n ← asNat (← field inp "n")
       return jList (jPair jNat jNat) (combos2 (List.range n))
+  | "refmarkers.byGene" => some do
+      -- gene-major table from the pair-major rows (B's on-disk transposition, no value array)
+      let rows ← asList natList (← field inp "rows")
+      let nGenes ← asNat (← field inp "nGenes")
+      let nProc ← asNat (← field inp "nProc")
+      let lo ← asNat (fieldD inp "chunk" (Json.num 100))
+      match byGeneTable nProc nGenes ⟨lo, lo, lo⟩ (lookupToSparse rows) with
+      | .ok out => return jObj [("ok", jPair jNats jNats (out.indptr, out.indices))]
+      | .error e => return jObj [("err", jStr e.name)]
+  | "refmarkers.mergeKeyed" => some do
+      -- per-chunk files keyed by col0, in completion order
+      let done ← asList (asPair asNat (asPair natList natList)) (← field inp "done")
+      return jOpt (jPair jNats jNats) (mergeTables done)
   | "refmarkers.consecutive" => some do
       let idx ← natList (← field inp "idx")
       return jExcept (fun _ => Json.null) (consecutiveCheck idx)
